@@ -27,9 +27,12 @@ struct ModelClient {
 	bool lazy = false;
 	int fragsize = 0;                 // requested with N after login (0 = leave default)
 	char want_downenc = 0;
+	int want_upenc = 0;               // upstream codec requested with S after login (0/5 = stay on Base32)
+	bool upenc_pending = false; uint64_t upenc_sent_at = 0;   // S sent, reply not seen yet: no data until then (as the real client)
 	int userid = -1;
 	uint32_t seed = 0;
 	bool have_seed = false, logged_in = false, raw = false;
+	bool used_raw = false;            // has sent raw-mode frames (they share the session's reassembly buffer with DNS-mode data)
 	std::string tun_ip; uint32_t tun_ip_h = 0;
 	uint16_t next_id = 1;
 	uint32_t cmc = 0;
